@@ -69,8 +69,8 @@ RULE = ("case = (kind, problem, draws): kinds sort|sd|ssd (integer table problem
         "objective / constraint weights scaled by 2^-40..2^20 (model run in units of the scale; exact), candidate sets of 130..300 members with labels "
         "beyond int8/uint8, op_dom (dominates incl. ties, zero / negative / positive violations, scaled by 2^-40 / 2^20), op_tiled (tiled_choice "
         "directly, size 0, < a, multiples of a), op_hc2 (hillclimb of the four other memetic mutation classes called directly), GA constructor "
-        "parameters rng and nhcstep, aliasing (every returned solution array is overwritten in place and the problem re-compared; operator "
-        "results must not share memory with their inputs); the public entry points of the 17 anchored modules are enumerated by introspection at "
+        "parameters rng and nhcstep, aliasing (every returned solution array is overwritten in place and the problem re-compared; results of "
+        "sampling / crossover / mutation / MutatorA/B.hillclimb must not share memory with their inputs); the public entry points of the 17 anchored modules are enumerated by introspection at "
         "run time and must all be classified (COVERED with their parameter lists / SKIPPED with a reason)")
 TRUSTED = ["pymoo 0.6.2 GA/NSGA2/NSGA3 loops and Result extraction (not modelled; every run is checked by the result monitor)",
            "numpy.random.choice(..., replace=False) yields distinct positions (oracle contract assumed by sampling_feasible)",
@@ -1090,7 +1090,8 @@ def _pred(case, out):
         cand = case["prob"]["cand"]; k = case["prob"]["k"]
         if not out["x_unchanged"]: bad.append("hillclimb modified its input chromosome")
         if not out["unchanged"] or not out["setspace_unchanged"]: bad.append("hillclimb modified the problem / set space")
-        if out["shares"]: bad.append("hillclimb result shares memory with its input or the set space")
+        # (no memory-sharing clause here: StochasticHillClimberMutation.hillclimb falls back to reduced_exchange, which returns its argument;
+        #  _do hands it a row of its private copy.  The input must be unchanged, which is checked above.)
         used = case["which"] in HC2[:2]      # the other two classes are used by no optimiser: only feasibility is demanded of them (see COVERED)
         if used and not out["rows"] and k < len(cand): bad.append("hillclimb returned an empty population although unused candidates exist")
         for y in out["rows"]:
